@@ -227,7 +227,7 @@ pub enum PeerError {
     Rejected(ReasonCode),
     InvalidPacket,
 }
-#[derive(Copy, Clone, PartialEq, Eq, Structural)]
+#[derive(Copy, Clone, PartialEq, Eq, Structural, Debug)]
 pub enum SerError {
     InsufficientMemory,
     Custom,
@@ -236,7 +236,7 @@ pub enum SerPubError<E> {
     Encode(SerError),
     Payload(E),
 }
-#[derive(Copy, Clone, PartialEq, Eq, Structural)]
+#[derive(Copy, Clone, PartialEq, Eq, Structural, Debug)]
 pub enum DeError {
     Custom,
     BadString,
@@ -244,7 +244,7 @@ pub enum DeError {
     BadVarint,
     InsufficientData,
 }
-#[derive(Clone, PartialEq)]
+#[derive(Clone, PartialEq, Debug)]
 pub enum ProtocolError {
     UnexpectedPacket,
     MalformedPacket,
@@ -2749,6 +2749,8 @@ fn handle_packet(
         sd_inv(*old(self)),
     ensures
         sd_inv(*final(self)) && sd_frame(*final(self), *old(self)) && rt_frame(*final(runtime), *old(runtime)),
+        r == Ok::<bool, Error<Infallible>>(true) ==> packet is Publish,
+        r matches Err(e) ==> (e is Disconnected || e is Peer || e is Resource),
         !(r matches Err(Error::Transport(_))),
         packet is ConnAck ==> r == Err::<bool, Error<Infallible>>(Error::Peer(PeerError::InvalidPacket))
             && sd_unchanged(*final(self), *old(self)) && rt_unchanged(*final(runtime), *old(runtime)),
@@ -3323,6 +3325,7 @@ fn take_packet(&mut self) -> (r: Result<(usize, ReceivedPacket<'_>), ProtocolErr
         rbuf(*final(self)) == rbuf(*old(self)) && (old(self).packet_length is Some ==>
             final(self).read_bytes == 0 && final(self).packet_length is None && reader_inv(*final(self)))
             && (old(self).packet_length is None ==> final(self).read_bytes == old(self).read_bytes && final(self).packet_length is None),
+        r matches Err(e) ==> (e is MalformedPacket || e is Deserialization),
         r == (match old(self).packet_length {
             None => Err::<(usize, ReceivedPacket<'_>), ProtocolError>(ProtocolError::MalformedPacket),
             Some(t) => match parse_packet(rbuf(*old(self)).subrange(0, t as int)) {
@@ -3348,6 +3351,7 @@ fn received_packet(&mut self) -> (r: Result<ReceivedPacket<'_>, ProtocolError>)
         rbuf(*final(self)) == rbuf(*old(self)) && (old(self).packet_length is Some ==>
             final(self).read_bytes == 0 && final(self).packet_length is None && reader_inv(*final(self)))
             && (old(self).packet_length is None ==> final(self).read_bytes == old(self).read_bytes && final(self).packet_length is None),
+        r matches Err(e) ==> (e is MalformedPacket || e is Deserialization),
         r == (match old(self).packet_length {
             None => Err::<ReceivedPacket<'_>, ProtocolError>(ProtocolError::MalformedPacket),
             Some(t) => parse_packet(rbuf(*old(self)).subrange(0, t as int)),
@@ -3559,6 +3563,34 @@ fn is_invalidated(&self, op: &Op) -> (r: bool)
 // 60_drive: src/mqtt_client/session/drive.rs (+ handle_disconnect from handshake.rs / mod.rs)
 // ======================================================================================
 verus! {
+
+pub struct InboundPublish<'a> {
+    pub topic: &'a str,
+    pub payload: &'a [u8],
+    pub properties: Properties<'a>,
+    pub retain: Retain,
+    pub qos: QoS,
+}
+impl<'a> InboundPublish<'a> {
+fn new(
+        topic: &'a str,
+        payload: &'a [u8],
+        properties: Properties<'a>,
+        retain: Retain,
+        qos: QoS,
+    ) -> (r: Self)
+    ensures
+        r.topic == topic && r.payload == payload && r.properties == properties && r.retain == retain && r.qos == qos,
+{
+        Self {
+            topic,
+            payload,
+            properties,
+            retain,
+            qos,
+        }
+    }
+}
 
 #[derive(Copy, Clone)]
 pub enum FlushedPacket {
@@ -4010,6 +4042,7 @@ async fn flush_current(
         final(self).io.wire@ == old(self).io.wire@ && final(self).io.inbound@ == old(self).io.inbound@,
         r matches Err(e) ==> (e is Disconnected || e is Transport) && !final(self).live,
         r matches Err(e) ==> e is Disconnected ==> !old(self).live,
+        r is Ok ==> reader_same(cs(*final(self)).packet_reader, cs(*old(self)).packet_reader),
         r is Ok ==> final(self).live && flushed_upd(cs(*final(self)).data.outbound, cs(*old(self)).data.outbound, packet)
             && rt_frame_ka(cs(*final(self)).runtime, cs(*old(self)).runtime)
             && cs(*final(self)).runtime.ping_timeout == (if packet matches FlushedPacket::Control(ControlAction::PingReq)
@@ -4054,6 +4087,8 @@ async fn perform_outbound_step(
         r matches Err(e) ==> e is Disconnected ==> !old(self).live,
         r matches Err(e) ==> (e is WriteZero || e is Resource) ==> final(self).io.wire@ == old(self).io.wire@ && *final(self).session == *old(self).session && final(self).live == old(self).live,
         r matches Ok(b) ==> b,
+        r is Ok ==> final(self).live == old(self).live && reader_same(cs(*final(self)).packet_reader, cs(*old(self)).packet_reader)
+            && rt_frame_ka(cs(*final(self)).runtime, cs(*old(self)).runtime),
         r is Ok ==> (match step_state(step) {
             SendState::Write { written } => {
                 let d = final(self).io.wire@.len() - old(self).io.wire@.len();
@@ -4232,6 +4267,7 @@ async fn service_outbound_once(&mut self, now: Instant) -> (r: Result<bool, Erro
         r matches Err(e) ==> (e is Transport || e is Disconnected) ==> !final(self).live,
         r matches Err(e) ==> (e is Transport || e is Disconnected || e is WriteZero || e is Resource),
         r matches Err(e) ==> e is Disconnected ==> !old(self).live,
+        r is Ok ==> final(self).live == old(self).live,
         r matches Ok(b) ==> !b ==> final(self).io == old(self).io && next_step_spec(cs(*final(self)).data.outbound) is None,
         sd_frame(cs(*final(self)).data, cs(*old(self)).data)
             && cs(*final(self)).data.pending_server_packet_ids@ == cs(*old(self)).data.pending_server_packet_ids@
@@ -4255,6 +4291,7 @@ async fn service(&mut self, now: Instant) -> (r: Result<bool, Error<IoErr>>)
         final(self).live ==> old(self).live,
         r matches Err(e) ==> (e is Transport || e is Disconnected) ==> !final(self).live,
         r matches Err(e) ==> (e is Transport || e is Disconnected || e is WriteZero || e is Resource),
+        r is Ok ==> final(self).live == old(self).live,
         r matches Ok(b) ==> !b ==> final(self).io == old(self).io && next_step_spec(cs(*final(self)).data.outbound) is None,
         sd_frame(cs(*final(self)).data, cs(*old(self)).data)
             && cs(*final(self)).data.pending_server_packet_ids@ == cs(*old(self)).data.pending_server_packet_ids@
@@ -4271,6 +4308,347 @@ async fn service(&mut self, now: Instant) -> (r: Result<bool, Error<IoErr>>)
         }
         self.service_outbound_once(now).await
     }
+
+async fn read_packet(&mut self) -> (r: Result<(), Error<IoErr>>)
+    requires
+        conn_inv(*old(self)),
+    ensures
+        !old(self).live ==> r == Err::<(), Error<IoErr>>(Error::Disconnected) && final(self).io == old(self).io && *final(self).session == *old(self).session,
+        final(self).live ==> old(self).live,
+        final(self).io.wire@ == old(self).io.wire@,
+        r matches Err(e) ==> !final(self).live && (e is Transport || e is Disconnected || e == Error::<IoErr>::Peer(PeerError::InvalidPacket)),
+        r is Ok ==> final(self).live && reader_ready(cs(*final(self)).packet_reader)
+            && cs(*final(self)).runtime == cs(*old(self)).runtime
+            && same_outbound(cs(*final(self)).data.outbound, cs(*old(self)).data.outbound)
+            && stream_ext(final(self).io.inbound@, old(self).io.inbound@, rbuf(cs(*final(self)).packet_reader), rbuf(cs(*old(self)).packet_reader),
+                cs(*final(self)).packet_reader.read_bytes as int, cs(*old(self)).packet_reader.read_bytes as int),
+        sd_frame(cs(*final(self)).data, cs(*old(self)).data)
+            && cs(*final(self)).data.pending_server_packet_ids@ == cs(*old(self)).data.pending_server_packet_ids@
+            && final(self).event == old(self).event,
+        conn_inv(*final(self)),
+{
+        if !self.live {
+            return Err(Error::Disconnected);
+        }
+        if let Err(err) = fill_packet_reader(&mut self.session.packet_reader, &mut self.io).await {
+            match &err {
+                Error::Transport(err) => (),
+                Error::Disconnected => (),
+                _ => {}
+            }
+            self.handle_disconnect();
+            return Err(err);
+        }
+        Ok(())
+    }
+
+fn process_received_packet(&mut self) -> (r: Result<Option<usize>, Error<IoErr>>)
+    requires
+        conn_inv(*old(self)),
+    ensures
+        final(self).io == old(self).io && final(self).event == old(self).event,
+        final(self).live ==> old(self).live,
+        !reader_avail(cs(*old(self)).packet_reader) ==> r == Ok::<Option<usize>, Error<IoErr>>(None) && *final(self).session == *old(self).session && final(self).live == old(self).live,
+        reader_avail(cs(*old(self)).packet_reader) ==> cs(*final(self)).packet_reader.read_bytes == 0 && cs(*final(self)).packet_reader.packet_length is None
+            && rbuf(cs(*final(self)).packet_reader) == rbuf(cs(*old(self)).packet_reader),
+        (reader_avail(cs(*old(self)).packet_reader) && parse_packet(rbuf(cs(*old(self)).packet_reader).subrange(0, cs(*old(self)).packet_reader.packet_length->Some_0 as int)) is Err) ==>
+            r == Err::<Option<usize>, Error<IoErr>>(Error::Peer(PeerError::InvalidPacket)) && !final(self).live
+            && armed(cs(*final(self)).data.outbound, cs(*old(self)).data.outbound),
+        r matches Err(e) ==> (e is Disconnected || e == Error::<IoErr>::Peer(PeerError::InvalidPacket) || e == Error::<IoErr>::Resource(ResourceError::PacketTooLarge)) ==> !final(self).live,
+        r matches Err(e) ==> (e is Disconnected || e is Peer || e is Resource),
+        r matches Err(e) ==> !(e is Disconnected || e == Error::<IoErr>::Peer(PeerError::InvalidPacket) || e == Error::<IoErr>::Resource(ResourceError::PacketTooLarge)) ==> final(self).live == old(self).live,
+        r is Ok ==> final(self).live == old(self).live,
+        r matches Ok(Some(n)) ==> cs(*old(self)).packet_reader.packet_length == Some(n) && n <= rbuf(cs(*old(self)).packet_reader).len()
+            && (parse_packet(rbuf(cs(*final(self)).packet_reader).subrange(0, n as int)) matches Ok(p) && p is Publish),
+        sd_frame(cs(*final(self)).data, cs(*old(self)).data),
+        conn_inv(*final(self)),
+{
+        if !self.session.packet_reader.packet_available() {
+            return Ok(None);
+        }
+
+        let (packet_length, packet) = match self.session.packet_reader.take_packet() {
+            Ok(packet) => packet,
+            Err(err) => {
+
+                self.handle_disconnect();
+                return Err(err.into());
+            }
+        };
+        match self
+            .session
+            .data
+            .handle_packet(&mut self.session.runtime, packet)
+        {
+            Ok(true) => Ok(Some(packet_length)),
+            Ok(false) => Ok(None),
+            Err(Error::Disconnected) => {
+
+                self.handle_disconnect();
+                Err(Error::Disconnected)
+            }
+            Err(Error::Peer(PeerError::InvalidPacket)) => {
+
+                self.handle_disconnect();
+                Err(Error::Peer(PeerError::InvalidPacket))
+            }
+            Err(Error::Resource(ResourceError::PacketTooLarge)) => {
+
+                self.handle_disconnect();
+                Err(Error::Resource(ResourceError::PacketTooLarge))
+            }
+            Err(Error::Peer(err)) => Err(Error::Peer(err)),
+            Err(Error::Resource(err)) => Err(Error::Resource(err)),
+            Err(Error::InvalidRequest | Error::NotReady | Error::WriteZero) => {
+                unreachable!("packet handler returned local I/O state")
+            }
+            Err(Error::Transport(never)) => vstd::pervasive::unreached(),
+        }
+    }
+
+fn decode_inbound_publish(&self, packet_length: usize) -> (r: InboundPublish<'_>)
+    requires
+        packet_length <= rbuf(cs(*self).packet_reader).len()
+            && (parse_packet(rbuf(cs(*self).packet_reader).subrange(0, packet_length as int)) matches Ok(p) && p is Publish),
+    ensures
+        ({ let info = parse_packet(rbuf(cs(*self).packet_reader).subrange(0, packet_length as int))->Ok_0->Publish_0;
+           r.topic == info.topic.0 && r.payload == info.payload && r.properties == info.properties && r.retain == info.retain && r.qos == info.qos }),
+{
+        let buffer = &self.session.packet_reader.buffer[..];
+        proof { assert(buffer@ =~= rbuf(cs(*self).packet_reader)); }
+
+        let ReceivedPacket::Publish(info) = ReceivedPacket::from_buffer(&buffer[..packet_length])
+            .expect("inbound packet must remain decodable")
+        else {
+            unreachable!("inbound event must be a PUBLISH");
+        };
+        InboundPublish::new(
+            info.topic.0,
+            info.payload,
+            info.properties,
+            info.retain,
+            info.qos,
+        )
+    }
+
+#[verifier::exec_allows_no_decreases_clause]
+async fn flush_outbound(&mut self) -> (r: Result<(), Error<IoErr>>)
+    requires
+        conn_inv(*old(self)),
+    ensures
+        !old(self).live ==> final(self).io == old(self).io && !final(self).live,
+        final(self).live ==> old(self).live,
+        r is Ok ==> next_step_spec(cs(*final(self)).data.outbound) is None && final(self).live == old(self).live,
+        r matches Err(e) ==> (e is Transport || e is Disconnected) ==> !final(self).live,
+        r matches Err(e) ==> (e is Transport || e is Disconnected || e is WriteZero || e is Resource),
+        r matches Err(e) ==> e is Disconnected ==> !old(self).live,
+        sd_frame(cs(*final(self)).data, cs(*old(self)).data)
+            && cs(*final(self)).data.pending_server_packet_ids@ == cs(*old(self)).data.pending_server_packet_ids@
+            && final(self).event == old(self).event && final(self).io.inbound@ == old(self).io.inbound@
+            && reader_same(cs(*final(self)).packet_reader, cs(*old(self)).packet_reader) || !final(self).live,
+        conn_inv(*final(self)),
+{
+        loop 
+            invariant
+                conn_inv(*self),
+                self.live ==> old(self).live,
+                !old(self).live ==> self.io == old(self).io && !self.live,
+                self.live == old(self).live,
+                sd_frame(cs(*self).data, cs(*old(self)).data),
+                cs(*self).data.pending_server_packet_ids@ == cs(*old(self)).data.pending_server_packet_ids@,
+                self.event == old(self).event, self.io.inbound@ == old(self).io.inbound@,
+                reader_same(cs(*self).packet_reader, cs(*old(self)).packet_reader),
+{
+            (match self.maybe_queue_pingreq(Instant::now()) { Ok(__v) => __v, Err(__e) => return Err(From::from(__e)) });
+            let Some(step) = self.session.data.outbound.next_step() else {
+                return Ok(());
+            };
+            (match self.perform_outbound_step(step, Instant::now()).await { Ok(__v) => __v, Err(__e) => return Err(From::from(__e)) });
+        }
+    }
+
+#[verifier::exec_allows_no_decreases_clause]
+async fn drive_packet(&mut self) -> (r: Result<Progress, Error<IoErr>>)
+    requires
+        conn_inv(*old(self)),
+    ensures
+        !old(self).live ==> r == Err::<Progress, Error<IoErr>>(Error::Disconnected) && final(self).io == old(self).io && *final(self).session == *old(self).session,
+        final(self).live ==> old(self).live,
+        r matches Err(e) ==> (e is Transport || e is Disconnected || e == Error::<IoErr>::Peer(PeerError::InvalidPacket)) ==> !final(self).live,
+        r matches Err(e) ==> (e is Transport || e is Disconnected || e is WriteZero || e is Resource || e is Peer),
+        r is Ok ==> final(self).live,
+        r matches Ok(Progress::Inbound(n)) ==> decodable(cs(*final(self)), n),
+        r matches Ok(Progress::Idle) ==> final(self).io == old(self).io && next_step_spec(cs(*final(self)).data.outbound) is None
+            && !reader_avail(cs(*final(self)).packet_reader),
+        r matches Ok(Progress::Advanced) ==> next_step_spec(cs(*final(self)).data.outbound) is None && !reader_avail(cs(*final(self)).packet_reader),
+        sd_frame(cs(*final(self)).data, cs(*old(self)).data) && final(self).event == old(self).event,
+        conn_inv(*final(self)),
+{
+        if !self.live {
+            return Err(Error::Disconnected);
+        }
+        let mut advanced = false;
+        loop 
+            invariant
+                conn_inv(*self), self.live, old(self).live,
+                !advanced ==> self.io == old(self).io,
+                sd_frame(cs(*self).data, cs(*old(self)).data), self.event == old(self).event,
+{
+            if self.session.packet_reader.packet_available() {
+                match (match self.process_received_packet() { Ok(__v) => __v, Err(__e) => return Err(From::from(__e)) }) {
+                    Some(packet_length) => return Ok(Progress::Inbound(packet_length)),
+                    None => {
+                        advanced = true;
+                        continue;
+                    }
+                }
+            }
+
+            let now = Instant::now();
+            { let __t = (match self.service(now).await { Ok(__v) => __v, Err(__e) => return Err(From::from(__e)) }); advanced = advanced || __t; }
+
+            if self.session.packet_reader.packet_available() {
+                match (match self.process_received_packet() { Ok(__v) => __v, Err(__e) => return Err(From::from(__e)) }) {
+                    Some(packet_length) => return Ok(Progress::Inbound(packet_length)),
+                    None => {
+                        advanced = true;
+                        continue;
+                    }
+                }
+            }
+
+            if self.session.data.outbound.next_step().is_none() {
+                return Ok(if advanced {
+                    Progress::Advanced
+                } else {
+                    Progress::Idle
+                });
+            }
+        }
+    }
+
+async fn drive(&mut self) -> (r: Result<Option<InboundPublish<'_>>, Error<IoErr>>)
+    requires
+        conn_inv(*old(self)),
+    ensures
+        !old(self).live ==> (r matches Err(Error::Disconnected)) && final(self).io == old(self).io && *final(self).session == *old(self).session,
+        final(self).live ==> old(self).live,
+        r matches Err(e) ==> (e is Transport || e is Disconnected || e == Error::<IoErr>::Peer(PeerError::InvalidPacket)) ==> !final(self).live,
+        conn_inv(*final(self)),
+{
+        Ok(match (match self.drive_packet().await { Ok(__v) => __v, Err(__e) => return Err(From::from(__e)) }) {
+            Progress::Inbound(packet_length) => Some(self.decode_inbound_publish(packet_length)),
+            Progress::Idle | Progress::Advanced => None,
+        })
+    }
+
+#[verifier::exec_allows_no_decreases_clause]
+async fn wait_for_progress(&mut self) -> (r: Result<Progress, Error<IoErr>>)
+    requires
+        conn_inv(*old(self)),
+    ensures
+        !old(self).live ==> r == Err::<Progress, Error<IoErr>>(Error::Disconnected) && final(self).io == old(self).io && *final(self).session == *old(self).session,
+        final(self).live ==> old(self).live,
+        r matches Err(e) ==> (e is Transport || e is Disconnected || e == Error::<IoErr>::Peer(PeerError::InvalidPacket)) ==> !final(self).live,
+        !(r matches Ok(Progress::Idle)),
+        r is Ok ==> final(self).live,
+        r matches Ok(Progress::Inbound(n)) ==> decodable(cs(*final(self)), n),
+        sd_frame(cs(*final(self)).data, cs(*old(self)).data) && final(self).event == old(self).event,
+        conn_inv(*final(self)),
+{
+        loop 
+            invariant
+                conn_inv(*self), self.live ==> old(self).live,
+                !old(self).live ==> self.io == old(self).io && *self.session == *old(self).session && !self.live,
+                sd_frame(cs(*self).data, cs(*old(self)).data), self.event == old(self).event,
+{
+            match (match self.drive_packet().await { Ok(__v) => __v, Err(__e) => return Err(From::from(__e)) }) {
+                Progress::Inbound(packet_length) => {
+                    return Ok(Progress::Inbound(packet_length));
+                }
+                Progress::Advanced => return Ok(Progress::Advanced),
+                Progress::Idle => {}
+            }
+
+            let deadline = self.session.runtime.next_deadline();
+
+            match deadline {
+                Some(deadline) => match self.read_packet_until(deadline).await {
+                    Ok(Ok(())) => {}
+                    Ok(Err(err)) => return Err(err),
+                    Err(_) => continue,
+                },
+                None => (match self.read_packet().await { Ok(__v) => __v, Err(__e) => return Err(From::from(__e)) }),
+            }
+        }
+    }
+
+async fn poll(&mut self) -> (r: Result<Option<InboundPublish<'_>>, Error<IoErr>>)
+    requires
+        conn_inv(*old(self)),
+    ensures
+        !old(self).live ==> (r matches Err(Error::Disconnected)) && final(self).io == old(self).io && *final(self).session == *old(self).session,
+        final(self).live ==> old(self).live,
+        r matches Err(e) ==> (e is Transport || e is Disconnected || e == Error::<IoErr>::Peer(PeerError::InvalidPacket)) ==> !final(self).live,
+        conn_inv(*final(self)),
+{
+        match (match self.wait_for_progress().await { Ok(__v) => __v, Err(__e) => return Err(From::from(__e)) }) {
+            Progress::Inbound(packet_length) => {
+                Ok(Some(self.decode_inbound_publish(packet_length)))
+            }
+            Progress::Advanced => Ok(None),
+            Progress::Idle => unreachable!("wait_for_progress only returns after session progress"),
+        }
+    }
+
+#[verifier::exec_allows_no_decreases_clause]
+async fn recv(&mut self) -> (r: Result<InboundPublish<'_>, Error<IoErr>>)
+    requires
+        conn_inv(*old(self)),
+    ensures
+        !old(self).live ==> (r matches Err(Error::Disconnected)) && final(self).io == old(self).io && *final(self).session == *old(self).session,
+        final(self).live ==> old(self).live,
+        r matches Err(e) ==> (e is Transport || e is Disconnected || e == Error::<IoErr>::Peer(PeerError::InvalidPacket)) ==> !final(self).live,
+        conn_inv(*final(self)),
+{
+        loop 
+            invariant
+                conn_inv(*self), self.live ==> old(self).live,
+                !old(self).live ==> self.io == old(self).io && *self.session == *old(self).session && !self.live,
+{
+            match (match self.wait_for_progress().await { Ok(__v) => __v, Err(__e) => return Err(From::from(__e)) }) {
+                Progress::Inbound(packet_length) => {
+                    return Ok(self.decode_inbound_publish(packet_length));
+                }
+                Progress::Advanced => {}
+                Progress::Idle => {
+                    unreachable!("wait_for_progress only returns after session progress")
+                }
+            }
+        }
+    }
+
+    /// X14: `with_deadline(deadline, self.read_packet())` — the read future is dropped at its await point on time-out
+    #[verifier::external_body]
+    async fn read_packet_until(&mut self, deadline: Instant) -> (r: Result<Result<(), Error<IoErr>>, TimeoutError>)
+        requires conn_inv(*old(self))
+        ensures
+            !old(self).live ==> (r matches Ok(Err(Error::Disconnected)) || r is Err) && final(self).io == old(self).io && *final(self).session == *old(self).session,
+            final(self).live ==> old(self).live,
+            final(self).io.wire@ == old(self).io.wire@,
+            r matches Ok(Err(e)) ==> !final(self).live && (e is Transport || e is Disconnected || e == Error::<IoErr>::Peer(PeerError::InvalidPacket)),
+            r matches Ok(Ok(_)) ==> final(self).live && reader_ready(cs(*final(self)).packet_reader)
+                && cs(*final(self)).runtime == cs(*old(self)).runtime
+                && same_outbound(cs(*final(self)).data.outbound, cs(*old(self)).data.outbound),
+            r is Err ==> final(self).live == old(self).live && cs(*final(self)).runtime == cs(*old(self)).runtime
+                && same_outbound(cs(*final(self)).data.outbound, cs(*old(self)).data.outbound),
+            r is Ok || r is Err ==> stream_ext(final(self).io.inbound@, old(self).io.inbound@, rbuf(cs(*final(self)).packet_reader), rbuf(cs(*old(self)).packet_reader),
+                cs(*final(self)).packet_reader.read_bytes as int, cs(*old(self)).packet_reader.read_bytes as int) || !final(self).live,
+            sd_frame(cs(*final(self)).data, cs(*old(self)).data)
+                && cs(*final(self)).data.pending_server_packet_ids@ == cs(*old(self)).data.pending_server_packet_ids@
+                && final(self).event == old(self).event,
+            conn_inv(*final(self)),
+    { unimplemented!() }
 }
 
 async fn write_current(connection: &mut VIo, bytes: &[u8]) -> (r: Result<usize, Error<IoErr>>)
@@ -4304,6 +4682,12 @@ pub open spec fn stream_ext(in1: Seq<u8>, in0: Seq<u8>, buf1: Seq<u8>, buf0: Seq
     &&& forall|k: int| 0 <= k < rb1 - rb0 ==> #[trigger] in1[in0.len() + k] == buf1[rb0 + k]
     &&& forall|k: int| 0 <= k < rb0 ==> #[trigger] buf1[k] == buf0[k]
 }
+/// the completed inbound packet of length n is still in the receive buffer and decodes to a PUBLISH
+pub open spec fn decodable(s: Session, n: usize) -> bool {
+    n <= rbuf(s.packet_reader).len() && (parse_packet(rbuf(s.packet_reader).subrange(0, n as int)) matches Ok(p) && p is Publish)
+}
+pub struct TimeoutError;
+pub open spec fn reader_avail(r: PacketReader) -> bool { r.packet_length matches Some(t) && r.read_bytes >= t }
 pub open spec fn reader_ready(r: PacketReader) -> bool {
     r.packet_length matches Some(t) && r.read_bytes >= t && t <= rbuf(r).len()
 }
